@@ -81,6 +81,16 @@ type SeataV1PackageHeader struct {
 }
 
 func (p *RpcPackageHandler) Read(ss getty.Session, data []byte) (interface{}, int, error) {
+	// an incomplete header means "need more data"; the magic bytes already received must still match
+	if len(data) < Seatav1HeaderLength {
+		for i := 0; i < len(data) && i < len(magics); i++ {
+			if data[i] != magics[i] {
+				return nil, 0, fmt.Errorf("codec decode not found magic offset")
+			}
+		}
+		return nil, 0, nil
+	}
+
 	in := bytes.NewByteBuffer(data)
 
 	header := SeataV1PackageHeader{}
@@ -99,13 +109,18 @@ func (p *RpcPackageHandler) Read(ss getty.Session, data []byte) (interface{}, in
 	header.CodecType = bytes.ReadByte(in)
 	header.CompressType = bytes.ReadByte(in)
 	header.RequestID = bytes.ReadUInt32(in)
-	headMapLength := header.HeadLength - Seatav1HeaderLength
-	header.Meta = decodeHeapMap(in, headMapLength)
-	header.BodyLength = header.TotalLength - uint32(header.HeadLength)
+	if header.HeadLength < Seatav1HeaderLength || header.TotalLength < uint32(header.HeadLength) {
+		return nil, 0, ErrInvalidPackage
+	}
 
+	// wait for the whole frame before looking at the head map and the body
 	if uint32(len(data)) < header.TotalLength {
 		return nil, int(header.TotalLength), nil
 	}
+
+	headMapLength := header.HeadLength - Seatav1HeaderLength
+	header.Meta = decodeHeapMap(in, headMapLength)
+	header.BodyLength = header.TotalLength - uint32(header.HeadLength)
 
 	// r := byteio.BigEndianReader{Reader: bytes.NewReader(data)}
 	rpcMessage := message.RpcMessage{
@@ -198,8 +213,8 @@ func decodeHeapMap(in *bytes.ByteBuffer, length uint16) map[string]string {
 		return res
 	}
 
-	readedLength := uint16(0)
-	for readedLength < length {
+	readedLength := 0
+	for readedLength < int(length) {
 		var key, value string
 		keyLength := bytes.ReadUInt16(in)
 		if keyLength == 0 {
@@ -220,7 +235,7 @@ func decodeHeapMap(in *bytes.ByteBuffer, length uint16) map[string]string {
 		}
 
 		res[key] = value
-		readedLength += 4 + keyLength + valueLength
+		readedLength += 4 + int(keyLength) + int(valueLength)
 		fmt.Sprintln("done")
 	}
 	return res
